@@ -99,9 +99,12 @@ class Gen:
                 lt = r.choice(["int", "int", "float"])
                 rt = r.choice(["int", "int", "float"])
                 return A.Bin(r.choice(CMP), self.expr(env, lt, depth - 1), self.expr(env, rt, depth - 1))
-            return A.Bin(r.choice(LOGIC), self.expr(env, r.choice(["int", "int", "float"]), depth - 1), self.expr(env, "int", depth - 1))
+            return A.Bin(r.choice(LOGIC), self.expr(env, "int", depth - 1), self.expr(env, "int", depth - 1))
         # float: at least one float operand
-        op = r.choice(["+", "-", "*", "+", "-", "/"])
+        op = r.choice(["+", "-", "*", "+", "-", "/", "&&", "||"])
+        if op in LOGIC:      # && / || of a float and an int/float operand is float-typed (0/1)
+            lt, rt = r.choice([("float", "float"), ("float", "int"), ("int", "float")])
+            return A.Bin(op, self.expr(env, lt, depth - 1), self.expr(env, rt, depth - 1))
         lt, rt = r.choice([("float", "float"), ("float", "int"), ("int", "float")])
         if op == "/":
             right = A.Lit(r.choice([2, 4]) if rt == "int" else r.choice([0.5, 2.0, 4.0]), rt) if r.random() < 0.7 else self.expr(env, rt, depth - 1)
@@ -254,27 +257,29 @@ class Gen:
         return A.Block([init, loop]) if False else _Seq([init, loop])
 
     # ------------------------------------------------------------ program
-    def program(self):
+    def program(self, helper=False):
         r = self.r
         env = {}
         params = []
-        for name in ("a", "b", "c")[: r.randint(1, 3)]:
+        for name in (("x", "y", "z") if helper else ("a", "b", "c"))[: r.randint(1, 3)]:
             t = r.choice(["int", "int", "float"])
             params.append((t, name))
             env[name] = (t, False)
-        if r.random() < 0.8:
+        if helper:
+            pass
+        elif r.random() < 0.8:
             params.append(("int", "n"))
             env["n"] = ("int", True)
             self.bounds["n"] = (0, self.nmax)
-        if r.random() < 0.4:
+        if not helper and r.random() < 0.4:
             params.append(("int", "k"))
             env["k"] = ("int", True)
         globals_ = []
-        if r.random() < 0.4:
+        if not helper and r.random() < 0.4:
             globals_.append(("int", "g1"))
             env["g1"] = ("int", False)
             self.tags.add("global")
-        if r.random() < 0.25:
+        if not helper and r.random() < 0.25:
             globals_.append(("float", "g2"))
             env["g2"] = ("float", False)
             self.tags.add("global")
@@ -287,7 +292,7 @@ class Gen:
             self.tags.add("array")
             if len(dims) == 2:
                 self.tags.add("array2d")
-        if r.random() < 0.25:
+        if not helper and r.random() < 0.25:
             st = A.Struct("S", [("int", "i"), ("float", "f")])
             self.structs.append(st)
             body.append(A.Decl(("struct", "S"), "s"))
